@@ -132,6 +132,7 @@ type UFDef struct {
 	Name   string
 	Params []Sort
 	Ret    Sort
+	SMTDef string // raw SMT-LIB definition (define-fun-rec ...) emitted with every query that uses it
 }
 
 type Lemma struct {
@@ -500,7 +501,7 @@ func (p *parser) parsePrimary() Expr {
 var clauseKeywords = map[string]bool{
 	"func": true, "extern": true, "ensures_trusted": true, "props": true, "requires": true, "ensures": true, "modifies": true,
 	"pure": true, "functional": true, "foreignfuncs": true, "trusted": true, "loop": true, "call": true, "allowpanic": true, "mapaccess": true, "at": true, "forbid": true, "allocbound": true, "set": true,
-	"pred": true, "fn": true, "axiom": true, "lemma": true, "ghost": true, "abstract": true,
+	"pred": true, "fn": true, "axiom": true, "lemma": true, "ghost": true, "abstract": true, "smtdef": true,
 	"mode": true, "inline": true, "nosafety": true, "replay": true, "const": true, "package": true,
 }
 
@@ -819,6 +820,26 @@ func parseSpecFile(path string) (*SpecFile, error) {
 				}
 			}
 			sf.UFs = append(sf.UFs, &UFDef{Name: name, Params: ps, Ret: sortFromText(strings.TrimSpace(c.rest[cls+1:]))})
+			cur = nil
+		case "smtdef":
+			// smtdef name(Sort, Sort) Ret := (raw SMT-LIB text of a define-fun-rec)
+			i := strings.Index(c.rest, ":=")
+			if i < 0 {
+				return nil, fail(c, "smtdef without :=")
+			}
+			hdr, body := strings.TrimSpace(c.rest[:i]), strings.TrimSpace(c.rest[i+2:])
+			open := strings.Index(hdr, "(")
+			cls := strings.LastIndex(hdr, ")")
+			if open < 0 || cls < open {
+				return nil, fail(c, "bad smtdef header")
+			}
+			var ps []Sort
+			for _, x := range splitTop(hdr[open+1:cls], ',') {
+				if x = strings.TrimSpace(x); x != "" {
+					ps = append(ps, sortFromText(x))
+				}
+			}
+			sf.UFs = append(sf.UFs, &UFDef{Name: strings.TrimSpace(hdr[:open]), Params: ps, Ret: sortFromText(strings.TrimSpace(hdr[cls+1:])), SMTDef: body})
 			cur = nil
 		case "axiom":
 			cl, err := parseClause(c.rest)
